@@ -95,20 +95,30 @@ func stringToInt(ss string) (int64, error) {
 	if ss == "" {
 		return 0, nil
 	}
-	if ss == "-0" {
-		return 0, strconv.ErrSyntax
-	}
 	if len(ss) > 2 {
+		base := 0
 		switch ss[:2] {
 		case "0x", "0X":
-			return strconv.ParseInt(ss[2:], 16, 64)
+			base = 16
 		case "0b", "0B":
-			return strconv.ParseInt(ss[2:], 2, 64)
+			base = 2
 		case "0o", "0O":
-			return strconv.ParseInt(ss[2:], 8, 64)
+			base = 8
+		}
+		if base != 0 {
+			if ss[2] == '-' || ss[2] == '+' {
+				// "0x-1" is not a numeric literal
+				return 0, strconv.ErrSyntax
+			}
+			return strconv.ParseInt(ss[2:], base, 64)
 		}
 	}
-	return strconv.ParseInt(ss, 10, 64)
+	i, err := strconv.ParseInt(ss, 10, 64)
+	if err == nil && i == 0 && ss[0] == '-' {
+		// "-0", "-00": negative zero is not an integer value, let the float path produce it
+		return 0, strconv.ErrSyntax
+	}
+	return i, err
 }
 
 func (s asciiString) _toInt(trimmed string) (int64, error) {
